@@ -195,6 +195,9 @@ Definition deliver_sel (p : sgmsg -> bool) (L : nat) (k : nat) (sm : sim) : acc 
 Definition deliver_all := deliver_sel (fun _ => true).
 (* partition: only the messages sent by one of the given keys *)
 Definition deliver_from (keys : list Z) := deliver_sel (fun m => existsb (Z.eqb (m_key m)) keys).
+(* loss: every soup message with index < L counts as delivered to node k without being delivered *)
+Definition lose_all (L : nat) (k : nat) (sm : sim) : sim :=
+  fold_left (fun sm i => mark_seen sm k i) (seq 0 L) sm.
 
 (* block sync: the next missing finalized block of node k, from the lowest-index other node
    (up or not: disks survive) that has it *)
@@ -302,6 +305,7 @@ Inductive sop :=
 | SSync (k : nat)
 | SDeliverAllTo (k : nat)
 | SDeliverFrom (k : nat) (keys : list Z)
+| SLoseAllTo (k : nat)
 | SRound.
 
 Definition node_view (nd : snode) : Z := r_view (rs_s (sn_rs nd)).
@@ -375,6 +379,7 @@ Definition sim_op (sm : sim) (o : sop) : acc * list nat :=
   | SSync k => (match sync_one sm k with Some a => a | None => acc0 sm end, [k])
   | SDeliverAllTo k => (deliver_all (length (s_soup sm)) k sm, [k])
   | SDeliverFrom k keys => (deliver_from keys (length (s_soup sm)) k sm, [k])
+  | SLoseAllTo k => (acc0 (lose_all (length (s_soup sm)) k sm), [k])
   | SRound => (round sm, all_nodes sm)
   end.
 
